@@ -616,6 +616,39 @@ def _execute_after_prelude(check, cand, ctx):
 hd_ctx = (0, 'quick')
 
 
+def minimise_in_child(check, case, outd, timeout=300):
+    """The driver never executes the code under test in its own process: minimisation runs
+    in a forked child, so that a crash while shrinking cannot take the verdict with it."""
+    rfd, wfd = os.pipe()
+    sys.stdout.flush()
+    pid = os.fork()
+    if pid == 0:
+        code = 3
+        try:
+            os.close(rfd)
+            signal.alarm(timeout)
+            res = minimise(check, case, outd)
+            with os.fdopen(wfd, 'wb') as f:
+                f.write(pickle.dumps(res, 2))
+            code = 0
+        except BaseException:
+            pass
+        finally:
+            os._exit(code)
+    os.close(wfd)
+    chunks = []
+    while True:
+        b = os.read(rfd, 1 << 16)
+        if not b:
+            break
+        chunks.append(b)
+    os.close(rfd)
+    _, status = os.waitpid(pid, 0)
+    if status != 0 or not chunks:
+        return case, outd, 0
+    return pickle.loads(b''.join(chunks))
+
+
 def minimise(check, case, outd, budget=400):
     """Shrink while the same clause is violated.  Uses the check's
     shrink_candidates (a generator that is restarted after each success)."""
@@ -777,7 +810,7 @@ def main_check(check, tier, verif_seed):
         if sig0 in seen_sigs:
             continue
         seen_sigs.add(sig0)
-        small, small_out, execs = minimise(check, case, outd)
+        small, small_out, execs = minimise_in_child(check, case, outd)
         mini = dict(from_size=check_size(case), to_size=check_size(small), reexecutions=execs)
         path = write_replay(check, small, small_out, tier, verif_seed, tag='min', minimised=mini)
         st, text = replay_in_fresh_process(check, path)
